@@ -411,14 +411,11 @@ Definition inline_sel : schema -> document -> document := inline_sel_gen true.
 Definition inline_sel_pre_repair : schema -> document -> document := inline_sel_gen false.
 
 (* ------------------------------------------------------------------ 5. merging of inline fragments and of fields with selections *)
-(* may [r] be merged into [l] (same selection set, [l] first) *)
-Definition can_merge (l r : selection) : bool :=
-  match l, r with
-  | SInline c1 d1 _, SInline c2 d2 _ => opt_name_eqb c1 c2 && dirs_eqb d1 d2
-  | SField a1 n1 g1 d1 (_ :: _), SField a2 n2 g2 d2 (_ :: _) =>
-    bytes_eqb n1 n2 && opt_name_eqb a1 a2 && args_eqb g1 g2 && dirs_eqb d1 d2
-  | _, _ => false
-  end.
+(* [deq] is the comparison of two directive lists: [dirs_eqb] (multisets, as
+   ast.DirectiveSetsAreEqual) in the model of the code; the set-semantics variant [dirs_eqb_set]
+   only serves the refutation [c03_merge_dirs_as_set_refuted] *)
+Definition dirs_eqb_set (a b : list directive) : bool :=
+  Nat.eqb (length a) (length b) && forallb (fun d => existsb (dir_eqb d) b) a.
 Definition sel_subs (s : selection) : list selection :=
   match s with SField _ _ _ _ sub => sub | SInline _ _ sub => sub | SSpread _ _ => [] end.
 Definition with_subs (s : selection) (sub : list selection) : selection :=
@@ -427,30 +424,45 @@ Definition with_subs (s : selection) (sub : list selection) : selection :=
   | SInline c ds _ => SInline c ds sub
   | SSpread _ _ => s
   end.
-(* s absorbs, in order, every later selection it can merge with *)
-Definition absorb (s : selection) (rest : list selection) : selection * list selection :=
-  (with_subs s (sel_subs s ++ flat_map sel_subs (filter (can_merge s) rest)),
-   filter (fun x => negb (can_merge s x)) rest).
-Fixpoint merge_level (fuel : nat) (l : list selection) : list selection :=
-  match fuel with
-  | O => l
-  | Datatypes.S f =>
-    match l with
-    | [] => []
-    | s :: rest => let '(s', rest') := absorb s rest in s' :: merge_level f rest'
-    end
-  end.
-Fixpoint merge_sels (fuel : nat) (l : list selection) : list selection :=
-  match fuel with
-  | O => l
-  | Datatypes.S f =>
-    map (fun s => match s with
-                  | SSpread _ _ => s
-                  | _ => with_subs s (merge_sels f (sel_subs s))
-                  end) (merge_level (length l) l)
-  end.
-Definition merge_sel (d : document) : document :=
-  map_doc_sels (fun l => merge_sels (Datatypes.S (sels_size l)) l) d.
+Section MergeGen.
+  Variable deq : list directive -> list directive -> bool.
+  (* may [r] be merged into [l] (same selection set, [l] first) *)
+  Definition can_merge_gen (l r : selection) : bool :=
+    match l, r with
+    | SInline c1 d1 _, SInline c2 d2 _ => opt_name_eqb c1 c2 && deq d1 d2
+    | SField a1 n1 g1 d1 (_ :: _), SField a2 n2 g2 d2 (_ :: _) =>
+      bytes_eqb n1 n2 && opt_name_eqb a1 a2 && args_eqb g1 g2 && deq d1 d2
+    | _, _ => false
+    end.
+  (* s absorbs, in order, every later selection it can merge with *)
+  Definition absorb_gen (s : selection) (rest : list selection) : selection * list selection :=
+    (with_subs s (sel_subs s ++ flat_map sel_subs (filter (can_merge_gen s) rest)),
+     filter (fun x => negb (can_merge_gen s x)) rest).
+  Fixpoint merge_level_gen (fuel : nat) (l : list selection) : list selection :=
+    match fuel with
+    | O => l
+    | Datatypes.S f =>
+      match l with
+      | [] => []
+      | s :: rest => let '(s', rest') := absorb_gen s rest in s' :: merge_level_gen f rest'
+      end
+    end.
+  Fixpoint merge_sels_gen (fuel : nat) (l : list selection) : list selection :=
+    match fuel with
+    | O => l
+    | Datatypes.S f =>
+      map (fun s => match s with
+                    | SSpread _ _ => s
+                    | _ => with_subs s (merge_sels_gen f (sel_subs s))
+                    end) (merge_level_gen (length l) l)
+    end.
+  Definition merge_sel_gen (d : document) : document :=
+    map_doc_sels (fun l => merge_sels_gen (Datatypes.S (sels_size l)) l) d.
+End MergeGen.
+Definition can_merge : selection -> selection -> bool := can_merge_gen dirs_eqb.
+Definition merge_sel : document -> document := merge_sel_gen dirs_eqb.
+(* not the code of /repo: the merging pass if directive lists were compared as sets *)
+Definition merge_sel_dirs_as_set : document -> document := merge_sel_gen dirs_eqb_set.
 
 (* ------------------------------------------------------------------ 6. removal of unused fragment definitions *)
 (* spreads reachable without entering a fragment definition (the visitor skips those) *)
